@@ -1,5 +1,6 @@
 #![allow(unused)]
 #![feature(pattern)]
+#![feature(allocator_api)]
 #![allow(non_shorthand_field_patterns)]
 use vstd::prelude::*;
 use vstd::std_specs::ops::*;
